@@ -6,7 +6,7 @@ READY = True
 META = {
     "technique": "Lean 4 proof (block-stack driver with LoadBlocks / parent switch / depth cursor / BlockState::Replace / recursion-limit accounting refines a stack-free specification for every environment of the fragment and every fuel; termination, cycle, double-extends, missing-template, include-candidate-selection, variable-visibility and import theorems) + differential correspondence of the model with the real engine on enumerated and sampled template environments",
     "category": "proof",
-    "text": "Kernel-checked theorems about MJ/Model/Blocks.lean (transcription of LoadBlocks, the end-of-instructions parent switch, call_block incl. self.name() and required blocks, perform_super emitted and captured, perform_include, import/from-import codegen, loops, macro calls (BlockState::Isolate: the block table and its cursors stay visible), variable frames, the undefined behaviour (tables regenerated from utils.rs and vm/mod.rs), the auto-escape mode (each template's initial mode as the default callback derives it from the name — extension table regenerated from defaults.rs; include/import switch to the included template's own mode and back, blocks / super() / macros / the parent layout keep the current mode, {% autoescape %} blocks nested up to AE_NEST_MAX = 8 deep directly in one another; write_escaped with the regenerated escape table) and the recursion limit = outer_stack_depth + frames with INCLUDE_/MACRO_RECURSION_COST regenerated from the sources). THE ARGUMENT of include / import / from-import is a value of the model (Arg: not an object — a string or another primitive — or an object of some ObjectRepr together with what try_iter() yields, or an object that cannot be iterated); `choices` (the candidates perform_include builds) and `notFoundRaised` (the tail condition) interpret tables regenerated from vm/mod.rs on every run (C06_INCLUDE_CHOICES: which ObjectReprs reach try_iter() — every filter in front of it removes kinds —, what the fallback arm is, the atoms of the TemplateNotFound condition), `select` is the candidate-selection rule and `includeTemplate` what happens to the selected template. blocks_refine_spec — for every environment whose templates are built from text, variables, set, macros, block tags, self.name(), super() ANYWHERE (block bodies, macro bodies, outside of blocks — where in an included chain the engine resolves it against the name of the block the include tag stands in: specChain's `inh`), required blocks, conditional extends (executed or not, anything before/behind it), include / import / from-import of any argument value (names, non-string scalars, lists, tuples, lazily evaluated iterables, one-shot iterators, maps, enumerable and non-iterable objects; ignore missing; included templates being inheritance chains of their own), loops, nested autoescape blocks and macro calls whose bodies may reference blocks, with well-founded block nesting, and for every fuel, the stateful driver returns exactly the output or error chain of the specification (no block stacks, no cursor, no capture stack, no loaded set; the spec reads the candidates off the value without any table: Arg.cands); corollaries block_renders_most_derived, super_goes_one_up, untouched_falls_through, child_text_discarded; render_block_most_derived / render_block_on_fresh_state, rendering_terminates (the recursion limit, not the model's fuel, bounds every nest; the driver runs with exactly the proven fuel), extends_terminates / cycle_is_detected_error, include_cycle_errors, double_extends_error, missing_is_error_not_truncation, include_first_existing, include_ignore_missing_forgives_only_missing, import_exports_toplevel (for any argument whose first existing candidate is the module), import_of_extending_template, include_keeps_closures_apart. NEW (include argument): include_candidates_any_iterable (every object that can be iterated yields its elements whatever its ObjectRepr, a non-object is one name, a non-iterable object is one non-string name, never `no candidates`; the model's ORepr covers exactly the enum's variants — an added filter on the object kind makes it false), include_follows_selection (perform_include = select, then render / load error / not-a-string error / TemplateNotFound iff something was tried and ignore missing is off), selection_is_first_existing (the selected template is the first candidate that exists, in iteration order, for every kind of carrier; conversely only missing names stand in front of it), include_renders_first_existing (statement level), include_nothing_exists (no candidate exists and something was asked for: TemplateNotFound unless ignore missing), include_never_silently_skips (Ok implies: a candidate was rendered and the result is its result, or the argument yields no candidate at all, or ignore missing was given and every candidate is a missing name). NEW (variables): include_sees_includer_variables (the included template runs on the includer's own frame stack: `{{ v }}` in it prints what a lookup at the include tag finds — loop variable, block frame, sets made so far, render context), include_assigns_into_current_frame_only (a successful include returns the same number of frames and every frame below the current one unchanged), import_leaves_importer_variables (import / from-import leave ALL of the importer's frames unchanged and bind exactly the fresh frame's locals / one of its values), super_outside_blocks. The model is tied to /repo by rendering every generated environment with the real engine in supervised child processes (hang / stack overflow = failure) and comparing output or the exact error-kind chain with the Lean model: all 1- and 2-template block assignments exhaustively, sampled chains of up to 4 templates with 48 kinds of include/import/self-call snippets at top level, in loops, macros, blocks and autoescape blocks, static/dynamic/conditional extends, captured super, required blocks, cycles, double extends, missing and unloadable templates, closures across composition, auto-escape mode crossings, and the enumerated ARGUMENT AXIS (family incl-arg: {string, non-string scalars, list literal, tuple, Vec from the environment, sliced list, |reverse, Value::make_iterable, one-shot iterator, list repetition, map literal, BTreeMap, enumerable plain object, non-iterable object} x {first candidate exists, a later one, none, one name, empty, non-string entries before / behind an existing name} x {ignore missing or not} x {include, import, from-import of a macro, from-import of a variable} x {top level, loop, macro call, autoescape block, block}), variable visibility (includer's set before/after, loop variable, block frame, macro argument x include/import/from-import), super() outside of blocks in included chains, block references in macro bodies, nested autoescape blocks; template names carry mixed extensions and the variable values contain the characters the modes treat differently; the Lean specification itself is evaluated on every case inside the fragment, an independent substitution-style spec in Python (which reads the candidates off the argument without looking at the object kind) is the oracle, and a metamorphic oracle checks for every case that a wrapper template of another mode that only includes t0 renders exactly what t0 renders on its own. SESSION 4: (1) PER-ACTIVATION STATE ACROSS THE PARENT SWITCH — MJ/Model/BlocksAct.lean models the id-indexed caches of an activation (`loaded_filters` / `loaded_tests`, filled in execution order by get_or_lookup_local, indexed by the per-stream local ids code generation hands out in source order) over any sequence of uses and switches to parent streams; wiped_cache_is_transparent (a cache wiped at every switch behaves like no cache, for every chain of switches), parent_switch_resets_per_template_state (every local of eval_impl that the regenerated table C06_ACTIVATION_STATE finds as an argument of get_or_lookup_local is assigned UNCONDITIONALLY in the end-of-instructions arm — a reset moved under a condition turns the row into `conditional` and the theorem stops building), every_activation_resolves_its_own_names (the whole render: block bodies, super() definitions, included / imported templates and macro bodies are activations of their own with empty caches — events call / ret over a stack of suspended callers, each activation free to switch to parents of its own; with the treatment the table reports, every use in every activation resolves the name its own current stream gives the id), carried_cache_is_wrong / wipe_if_slot0_is_wrong (why: ids are handed out in source order, slots fill in execution order), activation_state_classified (locals: reset / taken / carried, carried ones are not id-indexed; State fields: exactly `instructions` is re-targeted, blocks / loaded_templates / current_block / auto_escape / ctx are carried — which is what MJ.Blocks.evalImpl models). Behavioural side: items `fx` = pure expressions applying one of 6 filters / performing one of 7 tests (printed, hidden in a branch that is not taken, hidden behind a short-circuit), anywhere an item can stand (layouts, blocks, loops, macro bodies, autoescape blocks, included / imported templates); to model and specification such an expression is text: what it prints when rendered ON ITS OWN in a fresh environment (computed by the harness per name, so a changed builtin filter is not an alarm) — wherever it stands and whatever ran before in the same activation; extends decided by a test (mode q: `{% if 3 is number %}`); family local-ids (child and parent use different names at the same local ids, the child's first use hidden in branch / short-circuit / macro body / block, before / behind the tag, static / dynamic / conditional / test-decided extends, chains of 2 and 3), local-ids-cond, and +fx decorated random chains. (2) FAILURE AND RECOVERY ON ONE STATE — item `fuse` (`{{ fuse() }}` prints nothing; while the harness has it armed its k-th call fails), family recover (chains of 2..3 x super before / after / captured per level x fuse at every level and position x nested block) and fuses sprinkled over decorated chains; recovery stream: on the State left by render_captured, render every block (reference), render it with the fuse armed for k = 1..3 (must fail), then render all three blocks again: each must equal its reference (a failed render of a block must not move any block's cursor: the next render still starts at the most-derived definition). The same INSIDE one render: item `tryb` (`{{ try_block('b<n>', k) }}`: a function taking &mut State renders block n on the running State with the fuse armed at k, swallows whatever happens and prints nothing — to model and specification it is empty text, since a render of a block leaves no variables behind), placed at the top level of chain templates (family recover-in-render: the root's layout first tries the block, then renders it; and in decorated chains). (3) ENTRY POINTS — render_captured (output), render_captured_to (what was written), Environment::render_named_str (a template not stored in the environment) must give what Template::render gives, State::render_block_to_write what State::render_block gives. (4) NAME SHAPES — sixth configuration digit: variables / macros / exports are spelled v3, _v3 or V3_ (an import exposes EXACTLY the top-level names, whatever they look like).",
+    "text": "Kernel-checked theorems about MJ/Model/Blocks.lean (transcription of LoadBlocks, the end-of-instructions parent switch, call_block incl. self.name() and required blocks, perform_super emitted and captured, perform_include, import/from-import codegen, loops, macro calls (BlockState::Isolate: the block table and its cursors stay visible), variable frames, the undefined behaviour (tables regenerated from utils.rs and vm/mod.rs), the auto-escape mode (each template's initial mode as the default callback derives it from the name — extension table regenerated from defaults.rs; include/import switch to the included template's own mode and back, blocks / super() / macros / the parent layout keep the current mode, {% autoescape %} blocks nested up to AE_NEST_MAX = 8 deep directly in one another; write_escaped with the regenerated escape table) and the recursion limit = outer_stack_depth + frames with INCLUDE_/MACRO_RECURSION_COST regenerated from the sources). THE ARGUMENT of include / import / from-import is a value of the model (Arg: not an object — a string or another primitive — or an object of some ObjectRepr together with what try_iter() yields, or an object that cannot be iterated); `choices` (the candidates perform_include builds) and `notFoundRaised` (the tail condition) interpret tables regenerated from vm/mod.rs on every run (C06_INCLUDE_CHOICES: which ObjectReprs reach try_iter() — every filter in front of it removes kinds —, what the fallback arm is, the atoms of the TemplateNotFound condition), `select` is the candidate-selection rule and `includeTemplate` what happens to the selected template. blocks_refine_spec — for every environment whose templates are built from text, variables, set, macros, block tags, self.name(), super() ANYWHERE (block bodies, macro bodies, outside of blocks — where in an included chain the engine resolves it against the name of the block the include tag stands in: specChain's `inh`), required blocks, conditional extends (executed or not, anything before/behind it), include / import / from-import of any argument value (names, non-string scalars, lists, tuples, lazily evaluated iterables, one-shot iterators, maps, enumerable and non-iterable objects; ignore missing; included templates being inheritance chains of their own), loops, nested autoescape blocks and macro calls whose bodies may reference blocks, with well-founded block nesting, and for every fuel, the stateful driver returns exactly the output or error chain of the specification (no block stacks, no cursor, no capture stack, no loaded set; the spec reads the candidates off the value without any table: Arg.cands); corollaries block_renders_most_derived, super_goes_one_up, untouched_falls_through, child_text_discarded; render_block_most_derived / render_block_on_fresh_state, rendering_terminates (the recursion limit, not the model's fuel, bounds every nest; the driver runs with exactly the proven fuel), extends_terminates / cycle_is_detected_error, include_cycle_errors, double_extends_error, missing_is_error_not_truncation, include_first_existing, include_ignore_missing_forgives_only_missing, import_exports_toplevel (for any argument whose first existing candidate is the module), import_of_extending_template, include_keeps_closures_apart. NEW (include argument): include_candidates_any_iterable (every object that can be iterated yields its elements whatever its ObjectRepr, a non-object is one name, a non-iterable object is one non-string name, never `no candidates`; the model's ORepr covers exactly the enum's variants — an added filter on the object kind makes it false), include_follows_selection (perform_include = select, then render / load error / not-a-string error / TemplateNotFound iff something was tried and ignore missing is off), selection_is_first_existing (the selected template is the first candidate that exists, in iteration order, for every kind of carrier; conversely only missing names stand in front of it), include_renders_first_existing (statement level), include_nothing_exists (no candidate exists and something was asked for: TemplateNotFound unless ignore missing), include_never_silently_skips (Ok implies: a candidate was rendered and the result is its result, or the argument yields no candidate at all, or ignore missing was given and every candidate is a missing name). NEW (variables): include_sees_includer_variables (the included template runs on the includer's own frame stack: `{{ v }}` in it prints what a lookup at the include tag finds — loop variable, block frame, sets made so far, render context), include_assigns_into_current_frame_only (a successful include returns the same number of frames and every frame below the current one unchanged), import_leaves_importer_variables (import / from-import leave ALL of the importer's frames unchanged and bind exactly the fresh frame's locals / one of its values), super_outside_blocks. The model is tied to /repo by rendering every generated environment with the real engine in supervised child processes (hang / stack overflow = failure) and comparing output or the exact error-kind chain with the Lean model: all 1- and 2-template block assignments exhaustively, sampled chains of up to 4 templates with 48 kinds of include/import/self-call snippets at top level, in loops, macros, blocks and autoescape blocks, static/dynamic/conditional extends, captured super, required blocks, cycles, double extends, missing and unloadable templates, closures across composition, auto-escape mode crossings, and the enumerated ARGUMENT AXIS (family incl-arg: {string, non-string scalars, list literal, tuple, Vec from the environment, sliced list, |reverse, Value::make_iterable, one-shot iterator, list repetition, map literal, BTreeMap, enumerable plain object, non-iterable object} x {first candidate exists, a later one, none, one name, empty, non-string entries before / behind an existing name} x {ignore missing or not} x {include, import, from-import of a macro, from-import of a variable} x {top level, loop, macro call, autoescape block, block}), variable visibility (includer's set before/after, loop variable, block frame, macro argument x include/import/from-import), super() outside of blocks in included chains, block references in macro bodies, nested autoescape blocks; template names carry mixed extensions and the variable values contain the characters the modes treat differently; the Lean specification itself is evaluated on every case inside the fragment, an independent substitution-style spec in Python (which reads the candidates off the argument without looking at the object kind) is the oracle, and a metamorphic oracle checks for every case that a wrapper template of another mode that only includes t0 renders exactly what t0 renders on its own. SESSION 4: (1) PER-ACTIVATION STATE ACROSS THE PARENT SWITCH — MJ/Model/BlocksAct.lean models the id-indexed caches of an activation (`loaded_filters` / `loaded_tests`, filled in execution order by get_or_lookup_local, indexed by the per-stream local ids code generation hands out in source order) over any sequence of uses and switches to parent streams; wiped_cache_is_transparent (a cache wiped at every switch behaves like no cache, for every chain of switches), parent_switch_resets_per_template_state (every local of eval_impl that the regenerated table C06_ACTIVATION_STATE finds as an argument of get_or_lookup_local is assigned UNCONDITIONALLY in the end-of-instructions arm — a reset moved under a condition turns the row into `conditional` and the theorem stops building), every_activation_resolves_its_own_names (the whole render: block bodies, super() definitions, included / imported templates and macro bodies are activations of their own with empty caches — events call / ret over a stack of suspended callers, each activation free to switch to parents of its own; with the treatment the table reports, every use in every activation resolves the name its own current stream gives the id), carried_cache_is_wrong / wipe_if_slot0_is_wrong (why: ids are handed out in source order, slots fill in execution order), activation_state_classified (locals: reset / taken / carried, carried ones are not id-indexed; State fields: exactly `instructions` is re-targeted, blocks / loaded_templates / current_block / auto_escape / ctx are carried — which is what MJ.Blocks.evalImpl models). Behavioural side: items `fx` = pure expressions applying one of 6 filters / performing one of 7 tests (printed, hidden in a branch that is not taken, hidden behind a short-circuit), anywhere an item can stand (layouts, blocks, loops, macro bodies, autoescape blocks, included / imported templates); to model and specification such an expression is text: what it prints when rendered ON ITS OWN in a fresh environment (computed by the harness per name, so a changed builtin filter is not an alarm) — wherever it stands and whatever ran before in the same activation; extends decided by a test (mode q: `{% if 3 is number %}`); family local-ids (child and parent use different names at the same local ids, the child's first use hidden in branch / short-circuit / macro body / block, before / behind the tag, static / dynamic / conditional / test-decided extends, chains of 2 and 3), local-ids-cond, and +fx decorated random chains. (2) FAILURE AND RECOVERY ON ONE STATE — item `fuse` (`{{ fuse() }}` prints nothing; while the harness has it armed its k-th call fails), family recover (chains of 2..3 x super before / after / captured per level x fuse at every level and position x nested block) and fuses sprinkled over decorated chains; recovery stream: on the State left by render_captured, render every block (reference), render it with the fuse armed for k = 1..3 (must fail), then render all three blocks again: each must equal its reference (a failed render of a block must not move any block's cursor: the next render still starts at the most-derived definition). The same INSIDE one render: item `tryb` (`{{ try_block('b<n>', k) }}`: a function taking &mut State renders block n on the running State with the fuse armed at k, swallows whatever happens and prints nothing — to model and specification it is empty text, since a render of a block leaves no variables behind), placed at the top level of chain templates (family recover-in-render: the root's layout first tries the block, then renders it; and in decorated chains). SEVERAL super() PER DEFINITION — family multi-super: every definition of b0 at every level of a chain of 3..4 templates holds a sequence of 0..3 super() calls, each the plain statement (FastSuper) or in value position (set-assigned then printed: the captured path of perform_super), in every order (exhaustive: 3 levels with sequences up to 3, 4 levels with sequences up to 2 / 2 / 1); other value-position spellings (filtered, concatenated, passed as argument) compile to the same CallFunction path and are not generated separately. (3) ENTRY POINTS — render_captured (output), render_captured_to (what was written), Environment::render_named_str (a template not stored in the environment) must give what Template::render gives, State::render_block_to_write what State::render_block gives. (4) NAME SHAPES — sixth configuration digit: variables / macros / exports are spelled v3, _v3 or V3_ (an import exposes EXACTLY the top-level names, whatever they look like).",
     "design_ref": "DESIGN.md §3 C06",
     "level_note": "Trusted: Lean kernel; hand transcription of vm/mod.rs (LoadBlocks, end of instructions, call_block, perform_super, perform_include, ExportLocals, macro calls), vm/state.rs (BlockStack, with_execution_state), vm/context.rs (depth accounting) and the Import/FromImport/Extends/Block code generation into MJ/Model/Blocks.lean, validated differentially (not proved) on ~2.0e4 (quick) / ~1.5e5 (thorough) environments; the table extractor lib/tables/c06.py (shapes it does not recognise are reported missing = broken tie); the pretty-printer from abstract templates to Jinja source and the mapping `argument kind -> (ObjectRepr, what it yields)` in harness/src/bin/c06.rs and MJ/Drive/C06.lean (a wrong mapping shows up as a model disagreement). MOVED FROM VALIDATED TO PROVED in this round: the include / import / from-import argument as a value of any kind with the candidate-selection rule (was: lists of names only); super() at the top level of an included template and in macro bodies (was excluded from the fragment; the spec now carries the inherited block name); block references from inside macro bodies (was excluded; macro bodies now count as part of the enclosing block body); an autoescape block directly inside another one (was `unsupported`; now nested up to 8 deep, with the fuel bound of rendering_terminates extended accordingly); the variable visibility rule of include and the isolation rule of import (were implicit in the shared frame threading; now separate theorems via the frames-below invariant of Rel). SESSION 4 moved from validated to proved: the reset of the id-indexed per-activation caches at the parent switch (was: not modelled at all; now a model of its own with the tie to the source by table). STILL outside the proven fragment (validated by the correspondence only, ~0.5% of the generated cases): block references from a block to a lower- or equal-numbered block (block recursion; there the engine renders the definition at the cursor level, not the most-derived one, and the error chains of the ensuing recursion differ), extends inside loops / macros / blocks (the model answers `unsupported`; not generated), {% call %} blocks (not modelled: `caller` is a macro value that closes over the calling activation's frames AND its current block; bringing it in means a second kind of callable in Val plus the caller-closure rules of C18, i.e. a new simulation argument for Rel, not an extension of the existing one), closures opened inside the body of a macro call (macros with parameters / nested macro definitions: the model's closure heap is per file and scope, a macro-local closure needs a frame-indexed heap — same reason), the recursion cost of calling a closure macro; block recursion stays out because there the ENGINE, not the model, departs from the property's reading (a block referencing a lower- or equal-numbered block renders the definition at the cursor level): the specification would have to carry the cursor, which is exactly what it abstracts from. The activation model BlocksAct is tied to the source by table and by the fx streams, not by a proof that MJ.Blocks.evalImpl refines it (filters and tests are not items of MJ.Blocks: to it a pure expression is its value). In-render recovery is generated only in the form whose result is dropped (`tryb` prints nothing whether the nested render failed or not): the model has no catch, so a helper that prints the block on success and a fallback on failure is outside it; `tryb` is never placed inside block bodies (it would recurse). Recorded finding (KNOWN_FINDINGS, family super-inherited): super() outside of blocks in an included chain that defines the includer's block name twice renders the second definition instead of failing; model and Lean specification describe it, the Python oracle reports it. The specification threads variable frames exactly like the engine (it abstracts from the block machinery, not from variable scoping).",
 }
@@ -626,7 +626,7 @@ def run(r):
               "cycles, include cycles, double extends, missing templates, macro closures across composition, templates that exist but cannot be loaded and non-string template names; "
               "family incl-arg: the include / import / from-import ARGUMENT as an axis — {string, 4 non-string scalars, list literal, tuple, Vec, sliced list, |reverse, make_iterable, one-shot iterator, list repetition, map literal, BTreeMap, enumerable plain object, non-iterable object} x "
               "{first exists, later exists, none exists, single existing, single missing, empty, non-string entries before/behind an existing name} x {ignore missing or not} x {include, import, from-import macro, from-import variable} x {top level, loop, macro, autoescape, block}; "
-              "family local-ids / local-ids-cond (child and parent use different filters / tests at the same local ids, first use hidden in an untaken branch / short-circuit / macro body / block; extends decided by a test), recover (fuse at every level of super chains), chain<n>[+x]+fx (random chains decorated with pure filter / test expressions and fuses, also in the included / imported templates); "
+              "family multi-super (0..3 super() calls per definition at every level of chains of 3..4, plain or captured, every order); family local-ids / local-ids-cond (child and parent use different filters / tests at the same local ids, first use hidden in an untaken branch / short-circuit / macro body / block; extends decided by a test), recover (fuse at every level of super chains), chain<n>[+x]+fx (random chains decorated with pure filter / test expressions and fuses, also in the included / imported templates); "
               "family visibility (who sees and changes which variable), super-included / super-inherited (super() outside of blocks in included chains), macro-blocks (block references and super() in macro bodies), ae-nested (autoescape blocks 2-3 deep); "
               "every case carries an environment configuration (add_template vs loader-backed, default vs custom delimiters, plain names vs directories + path-join callback with relative references, undefined behaviour lenient/chainable/semi-strict/strict, the spelling of variable / macro names (v3, _v3, V3_)) and is rendered through three modelled entry points (Template::render, render_captured + State::render_block, new_state + render_block), four more that must agree with them (render_captured output, render_captured_to, render_named_str, render_block_to_write) and, when it holds a fuse, the recovery stream (failed render_block, then the same State again); a case is non-trivial when it executes an extends, "
               "include or import")
